@@ -322,8 +322,14 @@ def check(run):
     quick = run.tier == "quick"
     run.rule = ("IdSet: TLC behaviours of IdSet.tla replayed on BitSet/SortedIntSet mixes; random call "
                 "programs recorded from each doc-id set class and validated by IdSetTrace.tla. "
-                "non-trivial = behaviour/trace with >3 calls accepted to the end")
+                "Tables: random key/value multisets through HashWriter/Reader (3 hash functions, start offsets, "
+                "duplicates, empty keys/values), OrderedHash (closest_key, keys_from), every number encoding, "
+                "varints, GrowableArray, base85, StructFile, SortingPool (run sizes 1..1000), CompoundWriter "
+                "(buffer sizes 4..32K, as compound and as files) judged by TablesCheck.tla. "
+                "non-trivial = behaviour/trace with >3 calls accepted to the end / non-empty table observation")
     check_idset(run, quick)
+    from harness import tables
+    tables.check_tables(run, quick)
 
 
 def replay(run, rp):
